@@ -1,0 +1,15 @@
+//go:build verif
+
+// Contracts for the verification engine in /verif (comment-only file; it is
+// compiled only with the build tag "verif" and contains no code).
+
+package proxy
+
+// C15: the proxy never rewrites a status it does not own. The statuses it gets
+// back from the forwarder (CallCmd.Status(), Push result) may be the
+// framework's shared sentinels themselves (session.write returns
+// statConnClosed by pointer), so nothing is known about them here.
+//@ func (*proxy).call
+//@   property C15
+//@ func (*proxy).push
+//@   property C15
